@@ -1542,3 +1542,20 @@ mod tests {
         Ok(())
     }
 }
+
+/// Verification hooks (compiled only with `--cfg jomini_verif`): expose the private `escape`
+/// so that it can be compared one call at a time against its formal model. Adds no behaviour.
+#[cfg(jomini_verif)]
+#[allow(missing_docs)]
+pub mod verif_hooks_writer {
+    /// `escape` with a fresh scratch buffer
+    pub fn escape(data: &[u8]) -> Vec<u8> {
+        super::escape(data, Vec::new()).to_vec()
+    }
+
+    /// `escape` with a scratch buffer that was used for `prev` before (buffer reuse)
+    pub fn escape_reuse(prev: &[u8], data: &[u8]) -> Vec<u8> {
+        let buf = super::escape(prev, Vec::new()).buffer();
+        super::escape(data, buf).to_vec()
+    }
+}
